@@ -67,4 +67,100 @@ theorem C12_lex_linear (s : List UInt8) :
   have h := lex_ok s.toArray
   simpa using And.intro h.2.2.2 h.2.2.1
 
+namespace C12ex
+
+/-- `class A implements Namespace {` newline ` #` : a stray byte on line 2. -/
+def stray : List UInt8 := b!"class A implements Namespace {\n #"
+/-- An unterminated block comment after invalid UTF-8. -/
+def unclosed : List UInt8 := [0xff, 0xfe, 10] ++ b!"/* never closed"
+/-- A well-formed document. -/
+def good : List UInt8 :=
+  b!"class A implements Namespace { related: { r: A[] } permits = { p: (ctx) => this.related.r.includes(ctx.subject) } }"
+
+end C12ex
+
+-- non-vacuity: the parser model really diagnoses (errors with positions on the right line), really accepts,
+-- and the counters count.
+open C12ex in
+example : (parse stray).errors.map (fun e => (e.start, e.stop, (toSrcPos stray e.start).line)) = [(32, 32, 2)] := by decide
+open C12ex in
+example : (parse unclosed).errors.map (fun e => (e.kind, e.start, e.stop, (toSrcPos unclosed e.start).line,
+    (toSrcPos unclosed e.stop).line, rowCount unclosed)) = [(.fatalLex .unexpectedToken, 0, 0, 1, 1, 2)] := by decide
+open C12ex in
+example : (parse good).errors = [] ∧ (parse good).namespaces.length = 1 ∧ (parse good).panic = false := by decide +kernel
+open C12ex in
+example : (lex good.toArray).items.length = 38 ∧ 0 < (lex good.toArray).steps := by decide +kernel
+
+/-! ### linear time fails in the type check (finding F-tc-exp)
+
+Full statement (NOT provable on the current tree):
+
+    theorem C12_typecheck_linear : ∃ a b, ∀ s, (parse s).tcSteps ≤ a * s.length + b
+
+`recursiveCheckAllRelationsTypesHaveRelation` follows every SubjectSet type to depth
+`tupleToSubjectSetTypeCheckMaxDepth` without memoisation. -/
+
+namespace C12ex
+
+/-- `this.related.a.traverse(x => x.related.a.includes(ctx.subject))` inside namespace `N`. -/
+def famCheck : TypeCheck := .allTypesHaveRelation "N" ⟨.identifier, b!"a", 0, 0, .none⟩ "a"
+
+/-- Steps of the deferred check on
+    `class N implements Namespace { related: { a: (SubjectSet<N,"a"> | … k times)[] } permits = { p: (ctx) => … } }`,
+    a document of `152 + 21·k` bytes (corpus/C12/typecheck-exponential.case). -/
+def famSteps (k : Nat) : Nat := (runCheck (famNss k) famCheck {}).steps
+
+end C12ex
+
+open C12ex in
+/-- **C12, counterexample to linear time.** With `k` SubjectSet types on the self-referential
+    relation the single traverse check takes at least `k^11` steps (`k^(maxDepth+1)`), on an input of
+    `152 + 21·k` bytes: no bound `a·|s| + b` holds. -/
+theorem C12_typecheck_exponential_counterexample :
+    (∀ k, k ^ (Keto.Facts.tupleToSubjectSetTypeCheckMaxDepth + 1) ≤ famSteps k) ∧
+    ∀ a b : Nat, ∃ k, a * (152 + 21 * k) + b < famSteps k := by
+  have h1 : ∀ k, k ^ (Keto.Facts.tupleToSubjectSetTypeCheckMaxDepth + 1) ≤ famSteps k := by
+    intro k
+    have := recCheck_fam_steps k ⟨.identifier, b!"a", 0, 0, .none⟩ "a"
+      (Keto.Facts.tupleToSubjectSetTypeCheckMaxDepth + 1) (({} : TC).tick)
+    have hb : bstr b!"a" = "a" := by decide
+    unfold famSteps runCheck famCheck
+    simp only [hb]
+    omega
+  refine ⟨h1, fun a b => ⟨173 * a + b + 2, ?_⟩⟩
+  obtain ⟨k, hkdef⟩ : ∃ k, k = 173 * a + b + 2 := ⟨_, rfl⟩
+  rw [← hkdef]
+  have hk := h1 k
+  have hpos : 0 < k := by omega
+  -- k^2 ≤ k^11 ≤ steps
+  have hpow : k * k ≤ k ^ (Keto.Facts.tupleToSubjectSetTypeCheckMaxDepth + 1) := by
+    have : k ^ 2 ≤ k ^ (Keto.Facts.tupleToSubjectSetTypeCheckMaxDepth + 1) :=
+      Nat.pow_le_pow_right hpos (by decide)
+    rwa [Nat.pow_two] at this
+  -- a·(152 + 21k) + b < (173a + b + 2)·k = k·k
+  have hexp : k * k = 173 * (a * k) + b * k + 2 * k := by
+    have : k * k = (173 * a + b + 2) * k := by rw [← hkdef]
+    rw [this, Nat.add_mul, Nat.add_mul, Nat.mul_assoc]
+  have ha : a ≤ a * k := Nat.le_mul_of_pos_right a hpos
+  have hb : b ≤ b * k := Nat.le_mul_of_pos_right b hpos
+  have hlin : a * (152 + 21 * k) = 152 * a + 21 * (a * k) := by
+    rw [Nat.mul_add, Nat.mul_comm a 152, ← Nat.mul_assoc, Nat.mul_comm a 21, Nat.mul_assoc]
+  omega
+
+
+namespace C12ex
+/-- The family as source text, `k = 1` and `k = 2` (the corpus documents). -/
+def famDoc1 : List UInt8 :=
+  b!"class N implements Namespace {\n related: {\n  a: (SubjectSet<N, \"a\">)[]\n }\n permits = {\n  p: (ctx) => this.related.a.traverse((x) => x.related.a.includes(ctx.subject)),\n }\n}\n"
+def famDoc2 : List UInt8 :=
+  b!"class N implements Namespace {\n related: {\n  a: (SubjectSet<N, \"a\"> | SubjectSet<N, \"a\">)[]\n }\n permits = {\n  p: (ctx) => this.related.a.traverse((x) => x.related.a.includes(ctx.subject)),\n }\n}\n"
+end C12ex
+
+-- non-vacuity / tie of the family to `parse` on its source text: 173 and 194 bytes give 1 and 2^11 errors
+open C12ex in
+example : famDoc1.length = 152 + 21 * 1 ∧ (parse famDoc1).errors.length = 1 ∧ (parse famDoc1).tcSteps = 26 := by
+  decide +kernel
+open C12ex in
+example : famDoc2.length = 152 + 21 * 2 ∧ (parse famDoc2).errors.length = 2 ^ 11 := by decide +kernel
+
 end Keto
